@@ -165,7 +165,7 @@ def r20_1(ctx, fx: Effects, only: Optional[Set[FunctionInfo]] = None) -> None:
 
 
 # ----------------------------------------------------------------------------------------------- R20.2
-def r20_2(ctx, fx: Effects) -> None:
+def r20_2(ctx, fx: Effects, family: Optional[str] = None) -> None:
     eng = ctx.eng
     P = eng.prog
     F = eng.folder
@@ -174,6 +174,10 @@ def r20_2(ctx, fx: Effects) -> None:
         c = P.cls(r)
         models.add(c)
         models.update(c.all_subclasses())
+    if family is not None:
+        # borrowed as a clause of a JWS-only / JWE-only property: the models of the other family are not its business
+        from .common import in_family
+        models = {c for c in models if not c.methods or any(in_family(m_, family) for m_ in c.methods.values())}
     n = 0
     for c in sorted(models, key=lambda x: x.qualname):
         for m in c.methods.values():
@@ -187,7 +191,7 @@ def r20_2(ctx, fx: Effects) -> None:
             if m.is_cached:
                 ctx.fail("R20.2", m, m.node, "cached method/property on a shared algorithm model", construct="cache decorator on " + m.short)
             n += 1
-    ctx.count("R20.2/methods", n, 60, "model methods scanned")
+    ctx.count("R20.2/methods", n, 60 if family is None else 20, "model methods scanned")
     # attributes of every registered / draft model instance
     insts: List[Inst] = []
     jws = F.class_attr(P.cls("rfc7515.registry:JWSRegistry"), "algorithms")
@@ -201,7 +205,9 @@ def r20_2(ctx, fx: Effects) -> None:
         v = F.module_value(P.mod(modname), var)
         if isinstance(v, list):
             insts.extend(x for x in v if isinstance(x, Inst))
-    ctx.count("R20.2/instances", len(insts), 45, "model instances")
+    if family is not None:
+        insts = [i_ for i_ in insts if i_.cls in models]
+    ctx.count("R20.2/instances", len(insts), 45 if family is None else 10, "model instances")
     for inst in insts:
         bad = []
         for k, v in inst.attrs.items():
@@ -353,7 +359,7 @@ MEMO_WHITELIST = {
 }
 
 
-def r20_6(ctx) -> None:
+def r20_6(ctx, family: Optional[str] = None) -> None:
     """memoisation keeps a result object alive between calls: every cached function / cached property in the library is either on
     the whitelist (with its reason) or a violation - a cached mutable result (a decoded header dict) is shared by all callers, a
     cached view of mutable state (kid, alg) goes stale"""
@@ -363,6 +369,10 @@ def r20_6(ctx) -> None:
         memo = [d for d in fn.decorators if d.split("(")[0].split(".")[-1] in ("cached_property", "lru_cache", "cache")]
         if not memo:
             continue
+        if family is not None:
+            from .common import in_family
+            if not in_family(fn, family):
+                continue
         n += 1
         w = MEMO_WHITELIST.get(fn.short)
         if w is not None:
